@@ -41,7 +41,13 @@ HalfStep(from, to, steps) ==
         LET num == from[k] * steps + (to[k] - from[k]) * i IN
         RoundHalfEven(num, steps) # RoundHalfAway(num - from[k] * steps, steps) + from[k]
 
-RECURSIVE FadeW(_, _, _, _, _, _), BlinkW(_, _, _, _)
+FadeStepAway(from, to, i, steps) ==      \* the deviation the pinned firmware shows: ties rounded away from zero
+    [k \in 1..3 |-> from[k] + RoundHalfAway((to[k] - from[k]) * i, steps)]
+RECURSIVE FadeW(_, _, _, _, _, _), FadeAwayW(_, _, _, _, _, _), BlinkW(_, _, _, _)
+FadeAwayW(w, from, to, i, steps, stepUs) ==
+    IF i > steps THEN w
+    ELSE LET w1 == WLv(w, FadeStepAway(from, to, i, steps)) IN
+         FadeAwayW(IF i # steps THEN WSl(w1, stepUs) ELSE w1, from, to, i + 1, steps, stepUs)
 FadeW(w, from, to, i, steps, stepUs) ==
     IF i > steps THEN w
     ELSE LET w1 == WLv(w, FadeStep(from, to, i, steps)) IN
@@ -59,6 +65,13 @@ WaveOf(cur, c) ==
                            ELSE FadeW(w0, cur, Tri(c.a), 1, c.a[5], StepUs(c.a[4], c.a[5]))
       [] c.act = "blink" -> WLv(BlinkW(w0, Tri(c.a), 1000 * c.a[5], c.a[4]), cur)
       [] OTHER -> w0
+
+(* Known deviation (known_findings.json: rgb-fade-half-step): a valid fade with a step landing exactly on a half
+   is rendered by the device with ties away from zero; everything else about the call is as specified. *)
+KnownHalfStep(s, c, t, w, r) ==
+    /\ c.act = "fade" /\ Valid(c) /\ c.a[4] # 0 /\ s.col # Tri(c.a) /\ HalfStep(s.col, Tri(c.a), c.a[5])
+    /\ r = "ok" /\ t = St(Tri(c.a), IsOn(Tri(c.a)))
+    /\ WaveDevice(w, FadeAwayW(WStart(s.col), s.col, Tri(c.a), 1, c.a[5], StepUs(c.a[4], c.a[5])))
 
 LevelsOK(w) == \A i \in 1..Len(w) : \A k \in 1..3 : Comp(w[i].lv[k])
 
